@@ -697,6 +697,29 @@ def r10_export_written_wellformed(ctx, res):
     r5_escaping(ctx, res)
 
 
+def r11_exported_queries_scoped(ctx, res):
+    """what export() writes for lexicon L are rows of L: every table occurrence in the query functions the exporter calls is
+    bound by the lexicon filter on the row's OWN table (C04-R1, restricted to the functions reachable from export()) - a
+    filter on a joined table (the frame's linked sense instead of the frame) lets rows of an installed extension into the
+    export of the base."""
+    from ..runtime import Result
+    from .c04 import r1_sql_scoping
+    tmp = Result('tmp')
+    r1_sql_scoping(ctx, tmp)
+    reach = ctx.cg.reachable([ctx.repo.func('_export', 'export')])
+    names = {f.key for f in reach.values() if f.module.short == '_queries'}
+    n = 0
+    for i in tmp.instances:
+        if any(i.key.startswith(k + ':') for k in names):
+            n += 1
+            res.inst(f'export-scope:{i.key}', i.loc, i.desc)
+    for f in tmp.findings:
+        if any(f.key.startswith(k + ':') for k in names):
+            res.find(f'export-scope:{f.key}', f.loc, f.message)
+    if n < 15:
+        raise AnalysisError(f'only {n} table occurrences found in the query functions the exporter calls')
+
+
 RULES = [
     ('C03-R1', r1_coverage, 75),
     ('C03-R2', r2_guard_consistency, 3),
@@ -708,4 +731,5 @@ RULES = [
     ('C03-R8', r8_value_independent, 8),
     ('C03-R9', r9_declared_order, 2),
     ('C03-R10', r10_export_written_wellformed, 7),
+    ('C03-R11', r11_exported_queries_scoped, 15),
 ]
